@@ -13,6 +13,7 @@ func init() {
 	register("c08-hist", "C08", func(s *Sink, r *rand.Rand, tier, scratch string) { wStream(s, r, tier, scratch, "C08") })
 	register("c17-hist", "C17", func(s *Sink, r *rand.Rand, tier, scratch string) { wStream(s, r, tier, scratch, "C17") })
 	register("c19-hist", "C19", func(s *Sink, r *rand.Rand, tier, scratch string) { wStream(s, r, tier, scratch, "C19") })
+	register("c13-wallet", "C13", wHTLCStream)
 }
 
 var wFees = []uint{0, 100, 1000}
@@ -445,4 +446,26 @@ func wScenarios(prop, tier string, rng *rand.Rand) []wScenario {
 		}
 	}
 	return out
+}
+
+// c13-wallet: HTLC locks made and redeemed through the wallet (HTLCLockedProofs / ReceiveHTLC, i.e. the library's own witness
+// helpers as the wallet uses them): every lock shape the wallet can make, redeemed by the wallet it is for.
+func wHTLCStream(sink *Sink, rng *rand.Rand, tier, scratch string) {
+	start := time.Now()
+	for _, fee := range wFees {
+		for _, noNSigs := range []int{1, 2} {
+			h := newWHist(sink, rng, scratch, "C17", wCfg{fees: []uint{fee}, feePct: []uint64{1}, homes: []int{0, 0}})
+			h.htlcNoNSigs = noNSigs
+			h.nontrivial = true
+			h.OpMint(0, 0, 400, true, 0)
+			for _, c := range [][2]bool{{false, false}, {true, false}, {false, true}, {true, true}} {
+				for _, fees := range []bool{false, true} {
+					h.OpSendHTLC(0, 0, 20, fees, 1, c[0], c[1], 0)
+					h.OpRecvHTLC(1, len(h.w.tokens)-1, 0)
+				}
+			}
+			h.finish()
+		}
+	}
+	sink.Close("HTLC-locked sends of one wallet redeemed by the wallet they are for: with/without a signature requirement, with/without SIG_ALL, SIG_ALL with and without an n_sigs tag, at input fees 0/100/1000 ppk; non-trivial = every case", true, start)
 }
